@@ -83,54 +83,73 @@ theorem snsetNewLoop_spec (base : Int) (set : List Int) (nb : Nat) (bm : List Na
     (hl : bm.length = 8) (hw : ∀ w ∈ bm, w < 4294967296) (hs : ∀ x ∈ set, base ≤ x ∧ x < base + 256) :
     ∃ nb' bm', snsetNewLoop base set nb bm = ok (nb', bm') ∧ bm'.length = 8 ∧ (∀ w ∈ bm', w < 4294967296) ∧
       (∀ d : Nat, d < 256 → getBit bm' d = (getBit bm d || decide (base + (d : Int) ∈ set))) ∧
-      nb ≤ nb' ∧ (∀ x ∈ set, (x - base).toNat < nb') ∧ (nb ≤ 256 → nb' ≤ 256) := by
+      nb ≤ nb' ∧ (∀ x ∈ set, (x - base).toNat < nb') ∧ (nb ≤ 256 → nb' ≤ 256) ∧
+      (nb' = nb ∨ ∃ x ∈ set, nb' = (x - base).toNat + 1) := by
   induction set generalizing nb bm with
   | nil =>
-    exact ⟨nb, bm, by simp [snsetNewLoop], hl, hw, by simp, by omega, by simp, fun h => h⟩
+    exact ⟨nb, bm, by simp [snsetNewLoop], hl, hw, by simp, by omega, by simp, fun h => h, Or.inl rfl⟩
   | cons x rest ih =>
     have hx := hs x (by simp)
     have h1 : ¬ (x - base < -9223372036854775808 ∨ x - base ≥ 9223372036854775808) := by omega
     have hd : ((x - base) % 4294967296).toNat = (x - base).toNat := by omega
     have h2 : ¬ (x - base).toNat / 32 ≥ 8 := by omega
-    obtain ⟨nb', bm', he, hl', hw', hb, hn, hm, h256⟩ :=
+    have key : ∀ d : Nat, ((x - base).toNat = d ↔ base + (d : Int) = x) := by intro d; omega
+    obtain ⟨nb', bm', he, hl', hw', hb, hn, hm, h256, hor⟩ :=
       ih (if (x - base).toNat + 1 > nb then (x - base).toNat + 1 else nb) (setBit bm (x - base).toNat)
         (by simp [length_setBit, hl]) (setBit_lt bm _ hw) (fun y hy => hs y (by simp [hy]))
-    refine ⟨nb', bm', ?_, hl', hw', ?_, ?_, ?_, ?_⟩
+    refine ⟨nb', bm', ?_, hl', hw', ?_, ?_, ?_, ?_, ?_⟩
     · simp only [snsetNewLoop, h1, hd, h2, if_false]
       exact he
     · intro d hdd
       rw [hb d hdd, getBit_setBit bm _ d hl (by omega)]
       by_cases hxd : (x - base).toNat = d
-      · have : base + (d : Int) = x := by omega
+      · have : base + (d : Int) = x := (key d).mp hxd
         simp [hxd, this]
-      · have : ¬ base + (d : Int) = x := by omega
+      · have : ¬ base + (d : Int) = x := fun h => hxd ((key d).mpr h)
         simp [hxd, this]
-    · split at hn <;> omega
-    · intro y hy
+    · clear hor; split at hn <;> omega
+    · clear hor
+      intro y hy
       simp at hy
       rcases hy with hy | hy
       · subst hy
         split at hn <;> omega
       · exact hm y hy
-    · intro h
+    · clear hor
+      intro h
       apply h256
       split <;> omega
+    · rcases hor with hor | ⟨y, hy, hor⟩
+      · by_cases hgt : (x - base).toNat + 1 > nb
+        · simp only [hgt, if_true] at hor
+          exact Or.inr ⟨x, by simp, hor⟩
+        · simp only [hgt, if_false] at hor
+          exact Or.inl hor
+      · exact Or.inr ⟨y, by simp [hy], hor⟩
 
 /-- `SequenceNumberSet::new(base, set)` for any members within `base ..= base + 255`: no panic, the result is
     well-formed and its bits are exactly the members -/
 theorem snsetNew_wf (base : Int) (set : List Int) (hb : isI64 base)
-    (hs : ∀ x ∈ set, base ≤ x ∧ x < base + 256) :
+    (hs : ∀ x ∈ set, base ≤ x ∧ x < base + 256) (hi : ∀ x ∈ set, isI64 x) :
     ∃ s, snsetNew base set = ok s ∧ s.WF ∧ s.base = base ∧
       ∀ d : Nat, d < 256 → getBit s.bitmap d = decide (base + (d : Int) ∈ set) := by
-  obtain ⟨nb', bm', he, hl, hw, hbits, _, hm, h256⟩ :=
+  obtain ⟨nb', bm', he, hl, hw, hbits, _, hm, h256, hor⟩ :=
     snsetNewLoop_spec base set 0 zeroBitmap (by simp [zeroBitmap])
       (by intro w hw; simp [zeroBitmap] at hw; omega) hs
   have hbits' : ∀ d : Nat, d < 256 → getBit bm' d = decide (base + (d : Int) ∈ set) := by
     intro d hd
     rw [hbits d hd, getBit_zero]
     simp
+  have hov : 0 < nb' → base + ((nb' : Int) - 1) ≤ 9223372036854775807 := by
+    intro hpos
+    rcases hor with h0 | ⟨x, hx, hnx⟩
+    · omega
+    · have h1 := hs x hx
+      have h2 := (hi x hx).2
+      omega
+  clear hor
   refine ⟨{ base := base, numBits := nb', bitmap := bm' }, by simp [snsetNew, he], ?_, rfl, hbits'⟩
-  refine ⟨hb, h256 (by omega), hl, hw, ?_⟩
+  refine ⟨hb, h256 (by omega), hl, hw, ?_, hov⟩
   apply drop_zero_of_bits bm' nb' hl hw
   intro d hd hge
   rw [hbits' d hd]
@@ -207,12 +226,13 @@ theorem fnsetMembersTo_spec (s : FNSet) (k : Nat) (hk : k ≤ 256) (ho : s.base 
 
 /-- constructor then accessor: the members of `new(base, set)` are exactly `set` (as a set) -/
 theorem snsetNew_members (base : Int) (set : List Int) (hb : isI64 base)
-    (hs : ∀ x ∈ set, base ≤ x ∧ x < base + 256) (ho : base + 255 < 9223372036854775808) :
+    (hs : ∀ x ∈ set, base ≤ x ∧ x < base + 256) (hi : ∀ x ∈ set, isI64 x)
+    (ho : base + 255 < 9223372036854775808) :
     ∃ s l, snsetNew base set = ok s ∧ s.WF ∧ snsetMembers s = ok l ∧ ∀ x, x ∈ l ↔ x ∈ set := by
-  obtain ⟨s, he, hwf, hbase, hbits⟩ := snsetNew_wf base set hb hs
-  obtain ⟨_, hnb, hl, hw, hz⟩ := hwf
+  obtain ⟨s, he, hwf, hbase, hbits⟩ := snsetNew_wf base set hb hs hi
+  obtain ⟨_, hnb, hl, hw, hz, hov⟩ := hwf
   obtain ⟨l, hl', hm⟩ := snsetMembersTo_spec s s.numBits hnb (by rw [hbase]; exact ho)
-  refine ⟨s, l, he, ⟨by rw [hbase]; exact hb, hnb, hl, hw, hz⟩, hl', ?_⟩
+  refine ⟨s, l, he, ⟨by rw [hbase]; exact hb, hnb, hl, hw, hz, hov⟩, hl', ?_⟩
   intro x
   rw [hm x]
   constructor
@@ -233,7 +253,7 @@ theorem snsetNew_members (base : Int) (set : List Int) (hb : isI64 base)
     · exact ⟨(x - base).toNat, hlt, hbit, by rw [hbase]; omega⟩
     · exfalso
       -- bits at or beyond numBits are clear for sets built by `new`
-      obtain ⟨nb', bm', he', _, _, hbits2, _, hm2, _⟩ :=
+      obtain ⟨nb', bm', he', _, _, hbits2, _, hm2, _, _⟩ :=
         snsetNewLoop_spec base set 0 zeroBitmap (by simp [zeroBitmap])
           (by intro w hw; simp [zeroBitmap] at hw; omega) hs
       have : s = { base := base, numBits := nb', bitmap := bm' } := by
